@@ -8,18 +8,25 @@
    continuations (no bound):
      comments, blank lines, statement independence ........ stage 1   C14_trailing_comment, C14_comment_line, C14_blank_line,
                                                                     C14_comment_on_a_line, C14_blank_line_between (whole scripts, parse_model equal),
-                                                                    C14_split_app, C14_parse_model_by_statements, C14_statements_independent
+                                                                    C14_split_app, C14_parse_model_by_statements, C14_statements_independent,
+                                                                    C14_statements_permute, C14_merge_order_irrelevant, C14_combine_commutes
      blanks inside { } < > [ ], explicit [0], +k ........... stage 2   C14_braces_inner_blanks … C14_plus_sign_index, C14_token_layout_scan
      horizontal whitespace, continuation lines ............ stage 3   C14_whitespace_run_is_one_blank, C14_after_open, C14_before_close
      normal form = fixed point of the normaliser ........... stage 3   C14_normalise_idempotent, C14_normal_form_fixed
      normal form = fixed point of parse_equation .......... all stages C14_normal_form_fixed_point (whole statements, all
                                                                     normalised equations that satisfy the decidable dq_ok)
-   The composition of the three stages into parse_equation_M for whole statements (the `render` theorem of C01) is NOT
-   proved here: C14_layout_partial names what is proved; the composition is exercised by the correspondence and the
-   metamorphic oracle of harness/props/C14.py.  Findings #20, #22, #24 are stated as refutations. *)
-From Coq Require Import String Ascii List Bool Arith ZArith.
+     layout of terms and blank runs, whole statements ..... all stages C14_fixed_point_any_term_layout, C14_parse_any_blank_runs
+   Whole statements / scripts (parse_model / parse_equation themselves): comments and blank lines (C14_comment_on_a_line,
+   C14_blank_line_between), statement independence and permutation (C14_statements_independent, C14_statements_permute), the
+   fixed point (C14_normal_form_fixed_point), blanks inside { } < > [ ], the "+" of a lead, an explicit [0]
+   (C14_fixed_point_any_term_layout, C14_term_layout_irrelevant), runs of blanks / tabs between the tokens and continuation
+   lines inside round brackets (C14_parse_any_blank_runs, C14_whitespace_layout_irrelevant, C14_one_statement_one_yield).
+   The statement-level theorems speak about statements NAME[k] = rhs given as token lists (GNorm.neq + a layout) under the
+   decidable conditions Denorm.dq_ok / dq_ok_ws; that the statements of real scripts are of this form is checked case by case
+   by K_fixed_domain of harness/props/C14.py, not proved.  Findings #20, #22, #24 are stated as refutations. *)
+From Coq Require Import String Ascii List Bool Arith ZArith Permutation.
 Import ListNotations.
-Require Import PyBase PyStr Lex Symbols Split Merge ParseEq ParseModel GLex GLexFacts GNorm Layout LayoutNorm LayoutLex LayoutSplit LayoutScript Denorm DenormInt DenormFacts LayoutExamples.
+Require Import PyBase PyStr Lex Symbols Split Merge ParseEq ParseModel GLex GLexFacts GNorm Layout LayoutNorm LayoutLex LayoutSplit LayoutScript ContSplit MergeComm MergePerm Denorm DenormInt DenormFacts LayoutExamples.
 Open Scope string_scope.
 
 (* ---- stage 3: whitespace ---- *)
@@ -190,17 +197,32 @@ Theorem C14_statements_independent : forall (s1 s2 : string) (st : sstate) (b1 b
 Proof. exact statements_independent. Qed.
 Print Assumptions C14_statements_independent.
 
-(* reordering two complete blocks of statements: both orders parse the same statements alone and merge the per-statement
-   symbol lists in the respective order.  That the two merges contain the same symbols in another order is NOT proved
-   (it needs commutativity of Symbol.combine across the occurrences of a name); the metamorphic oracle checks it *)
-Theorem C14_permutation_partial : forall (s1 s2 : string) (st1 st2 : sstate) (b1 b2 : list (list symbol)),
+(* reordering statements only reorders symbols: swapping two complete blocks of statements makes parse_model fail in both
+   orders or succeed in both with lists that are permutations of each other — the same symbols, every field (name, type,
+   lags, leads, equation, code) equal, in another order *)
+Theorem C14_statements_permute : forall (s1 s2 : string) (st1 st2 : sstate) (b1 b2 : list (list symbol)),
   s1 <> "" -> ends_sep s1 = false -> final_state s0 (model_lines s1) = Some st1 -> clean st1 = true ->
   s2 <> "" -> ends_sep s2 = false -> final_state s0 (model_lines s2) = Some st2 -> clean st2 = true ->
   map_p parse_equation_M (fst (split_M s1)) = POk b1 -> map_p parse_equation_M (fst (split_M s2)) = POk b2 ->
-  parse_model_nocheck (s1 ++ nl_s ++ s2) = of_outcome (merge_symbols (b1 ++ b2)%list) /\
-  parse_model_nocheck (s2 ++ nl_s ++ s1) = of_outcome (merge_symbols (b2 ++ b1)%list).
-Proof. exact swap_blocks. Qed.
-Print Assumptions C14_permutation_partial.
+  same_parse (parse_model_nocheck (s1 ++ nl_s ++ s2)) (parse_model_nocheck (s2 ++ nl_s ++ s1)).
+Proof. exact statements_permute. Qed.
+Print Assumptions C14_statements_permute.
+
+(* the cross-equation merge does not depend on the order of its input, up to the order of its output: ANY permutation of
+   the per-statement symbols (not only a swap of blocks) *)
+Theorem C14_merge_order_irrelevant : forall b b' : list (list symbol),
+  Permutation (concat b) (concat b') -> same_up_to_order (merge_symbols b) (merge_symbols b').
+Proof. exact merge_perm. Qed.
+Print Assumptions C14_merge_order_irrelevant.
+
+(* the reason: Symbol.combine commutes across the occurrences of a name (success and every field of the result), for a table
+   entry x (lags / leads never a period string — an invariant of the table) and at the first appearance of a name *)
+Theorem C14_combine_commutes : forall x a b : symbol,
+  (norm_sym x = true -> obnd (comb x a) (fun c => comb c b) = obnd (comb x b) (fun c => comb c a)) /\
+  (sname a = sname b -> obnd (comb a a) (fun c => comb c b) = obnd (comb b b) (fun c => comb c a)) /\
+  ok_of (combine a b) = comb a b.
+Proof. exact (fun x a b => conj (comb_comm x a b) (conj (comb_first a b) (comb_combine a b))). Qed.
+Print Assumptions C14_combine_commutes.
 
 (* ---- the normal form is a fixed point of the parser (whole statements) ---- *)
 (* q ranges over ALL normalised equations given as token lists; dq_ok q: one assigned term NAME[t+k] and blanks on the left,
@@ -212,22 +234,63 @@ Print Assumptions C14_permutation_partial.
 Theorem C14_normal_form_fixed_point : forall q : neq,
   dq_ok canon q = true ->
   parse_equation_M (denorm_text canon q) = of_outcome (equation_symbols (neq_text q) (neq_code q) (neq_terms q)).
-Proof. exact (normal_form_fixed_point canon). Qed.
+Proof. exact normal_form_fixed_point_canon. Qed.
 Print Assumptions C14_normal_form_fixed_point.
 
-(* more generally, for EVERY way `lay` of writing the index brackets (blanks after "[" and before "]" on the right-hand side,
-   leads with or without "+"; none inside the left-hand bracket — finding #22): the same result.  Hence layout inside index
-   brackets does not matter for whole statements of this form *)
-Theorem C14_fixed_point_any_index_layout : forall (lay : layout) (q : neq),
+(* LAYOUT OF THE TERMS, whole statements.  For EVERY way `lay` of writing each term of q — as NAME, as a parameter { NAME } or
+   an error < NAME > with any blanks inside the braces / angle brackets; with any blanks inside the index bracket, a lead with or
+   without "+", an offset 0 written [0] or not at all (left-hand side: plain NAME[k] without inner blanks, findings #14 / #22) —
+   parse_equation computes the same normalised equation text and the same code text; only the TYPES of the terms follow the
+   style (lneq_terms: PARAMETER / ERROR for braces / angle brackets) *)
+Theorem C14_fixed_point_any_term_layout : forall (lay : layout) (q : neq),
   dq_ok lay q = true ->
-  parse_equation_M (denorm_text lay q) = of_outcome (equation_symbols (neq_text q) (neq_code q) (neq_terms q)).
+  parse_equation_M (denorm_text lay q) = of_outcome (equation_symbols (neq_text q) (neq_code q) (lneq_terms lay q)).
 Proof. exact normal_form_fixed_point. Qed.
-Print Assumptions C14_fixed_point_any_index_layout.
-Theorem C14_index_layout_irrelevant : forall (lay1 lay2 : layout) (q : neq),
-  dq_ok lay1 q = true -> dq_ok lay2 q = true ->
+Print Assumptions C14_fixed_point_any_term_layout.
+(* hence: blanks inside { } < > [ ], the "+" of a lead and an explicit [0] do not matter *)
+Theorem C14_term_layout_irrelevant : forall (lay1 lay2 : layout) (q : neq),
+  dq_ok lay1 q = true -> dq_ok lay2 q = true -> lneq_terms lay1 q = lneq_terms lay2 q ->
   parse_equation_M (denorm_text lay1 q) = parse_equation_M (denorm_text lay2 q).
 Proof. exact index_layout_irrelevant. Qed.
-Print Assumptions C14_index_layout_irrelevant.
+Print Assumptions C14_term_layout_irrelevant.
+
+(* horizontal whitespace and continuation lines for whole statements: with ANY runs of blanks / tabs between the tokens, and
+   newlines + indentation wherever a round bracket is open (dq_ok_ws: as dq_ok, without the normal-form requirement),
+   parse_equation produces the texts of the NORMALISED token list (nrm: runs collapsed to one blank, blanks after "(" and
+   before ")" dropped) — so two statements that normalise to the same token list parse alike, whatever their blank runs,
+   line breaks and the layouts of their terms *)
+Theorem C14_parse_any_blank_runs : forall (lay : layout) (q : neq),
+  dq_ok_ws lay q = true ->
+  parse_equation_M (denorm_text lay q)
+  = of_outcome (equation_symbols (nflat (nrm (whole_toks q))) (cflat (nrm (whole_toks q))) (lneq_terms lay q)).
+Proof. exact parse_denorm_general. Qed.
+Print Assumptions C14_parse_any_blank_runs.
+Theorem C14_whitespace_layout_irrelevant : forall (lay1 lay2 : layout) (q1 q2 : neq),
+  dq_ok_ws lay1 q1 = true -> dq_ok_ws lay2 q2 = true ->
+  nrm (whole_toks q1) = nrm (whole_toks q2) -> lneq_terms lay1 q1 = lneq_terms lay2 q2 ->
+  parse_equation_M (denorm_text lay1 q1) = parse_equation_M (denorm_text lay2 q2).
+Proof. exact whitespace_layout_irrelevant. Qed.
+Print Assumptions C14_whitespace_layout_irrelevant.
+Theorem C14_whitespace_layout_satisfiable :
+  dq_ok_ws ex_lay ex_ws_q = true /\ dq_ok_ws canon ex_fix_q = true /\
+  nrm (whole_toks ex_ws_q) = nrm (whole_toks ex_fix_q) /\ lneq_terms ex_lay ex_ws_q = lneq_terms canon ex_fix_q /\
+  nrm (whole_toks ex_fix_q) = whole_toks ex_fix_q /\ denorm_text ex_lay ex_ws_q <> denorm_text canon ex_fix_q.
+Proof. exact ex_ws_layout. Qed.
+Print Assumptions C14_whitespace_layout_satisfiable.
+
+(* a statement spread over several lines inside round brackets is yielded by the splitter as ONE statement, text unchanged:
+   cont_scan 0 E = every newline of E stands inside an open round bracket, no other line separator, brackets balanced *)
+Theorem C14_one_statement_one_yield : forall E : string,
+  is_blank E = false -> stmt_ok E = true -> startswith "```" E = false ->
+  cont_scan 0 E = true -> has_char "#" E = false -> split_M E = ([E], None).
+Proof. exact split_one_statement. Qed.
+Print Assumptions C14_one_statement_one_yield.
+Theorem C14_continuation_satisfiable :
+  dq_ok_ws canon ex_cont_q = true /\
+  nrm (whole_toks ex_cont_q) = whole_toks ex_fix_q /\ lneq_terms canon ex_cont_q = lneq_terms canon ex_fix_q /\
+  has_nl (denorm_text canon ex_cont_q) = true.
+Proof. exact ex_cont_layout. Qed.
+Print Assumptions C14_continuation_satisfiable.
 
 (* what must NOT happen: no symbol of the re-parse carries any other equation or code *)
 Theorem C14_fixed_point_symbols : forall (lay : layout) (q : neq) (syms : list symbol),
@@ -245,9 +308,15 @@ Theorem C14_fixed_point_satisfiable :
   dq_ok canon ex_fix_q = true /\
   (exists syms, parse_equation_M (denorm_text canon ex_fix_q) = POk syms /\
      exists s, In s syms /\ sname s = Some "C" /\ sequation s = Some (neq_text ex_fix_q) /\ scode s = Some (neq_code ex_fix_q)) /\
-  dq_ok ex_lay ex_fix_q = true /\
-  denorm_text ex_lay ex_fix_q = "C[1] = (alpha_1[ 0  ] * max(YD[ 2  ], H[ -1  ]) if X[ '2000'  ] <= 0 else `np.pi *  2`)".
-Proof. exact (conj ex_fix_ok (conj ex_fix_instance ex_lay_ok)). Qed.
+  (dq_ok ex_lay ex_fix_q = true /\
+   denorm_text ex_lay ex_fix_q = "C[1] = (alpha_1 * max(YD[ 2  ], H[ -1  ]) if X[ '2000'  ] <= 0 else `np.pi *  2`)" /\
+   lneq_terms ex_lay ex_fix_q = lneq_terms canon ex_fix_q) /\
+  (dq_ok ex_lay_src ex_fix_q = true /\ dq_ok ex_lay_src_compact ex_fix_q = true /\
+   denorm_text ex_lay_src ex_fix_q = "C[+1] = ({ alpha_1  } * max(YD[+2], < H >[ -1]) if X['2000'] <= 0 else `np.pi *  2`)" /\
+   denorm_text ex_lay_src_compact ex_fix_q = "C[+1] = ({alpha_1}[0] * max(YD[+2], <H>[-1]) if X['2000'] <= 0 else `np.pi *  2`)" /\
+   lneq_terms ex_lay_src ex_fix_q = lneq_terms ex_lay_src_compact ex_fix_q /\
+   lneq_terms ex_lay_src ex_fix_q <> lneq_terms canon ex_fix_q).
+Proof. exact (conj ex_fix_ok (conj ex_fix_instance (conj ex_lay_ok ex_lay_src_ok))). Qed.
 Print Assumptions C14_fixed_point_satisfiable.
 
 (* the exclusion "equations without backticked period indexes" is needed *)
@@ -265,13 +334,21 @@ Theorem C14_hypotheses_satisfiable :
 Proof. exact ex_independent_hyps. Qed.
 Print Assumptions C14_hypotheses_satisfiable.
 
-(* what is proved for whole statements is an instance only (comments, blank lines, [0], +0, inner blanks, tabs, a
-   continuation line, all at once give the identical symbol list); for ALL statements the three stages above are proved
-   separately and their composition is left to the correspondence check — hence `_partial` *)
-Theorem C14_layout_partial :
+Theorem C14_permute_satisfiable :
+  final_state s0 (model_lines ex_s2) = Some s0 /\ ends_sep ex_s2 = false /\ ex_s2 <> "" /\
+  name_types (parse_model_nocheck (ex_s1 ++ nl_s ++ ex_s2))
+    = [(Some "Y", TEndogenous); (Some "X", TExogenous); (Some "Z", TExogenous); (Some "W", TEndogenous); (Some "V", TEndogenous); (Some "a", TParameter)] /\
+  name_types (parse_model_nocheck (ex_s2 ++ nl_s ++ ex_s1))
+    = [(Some "W", TEndogenous); (Some "Y", TEndogenous); (Some "V", TEndogenous); (Some "a", TParameter); (Some "X", TExogenous); (Some "Z", TExogenous)].
+Proof. exact ex_permute. Qed.
+Print Assumptions C14_permute_satisfiable.
+
+(* everything at once on a real script text (comments, blank lines, [0], +0, inner blanks, tabs, a continuation line): the
+   identical symbol list — an instance computed by the kernel *)
+Theorem C14_layout_instance :
   parse_model_nocheck ex_var = parse_model_nocheck ex_base /\ names_of (parse_model_nocheck ex_base) <> None.
 Proof. exact ex_layout_same. Qed.
-Print Assumptions C14_layout_partial.
+Print Assumptions C14_layout_instance.
 
 (* ---- what does NOT hold of the code as it is ---- *)
 (* #20: a blank before the index bracket is accepted, the lag is lost, the code indexes a scalar *)
